@@ -189,7 +189,14 @@ func (e *Engine) callFunction(fr *Frame, st *State, fn *ssa.Function, binds []*V
 		return
 	}
 	if ct := e.lookup(name); ct != nil && (fn != e.curFn || fr.depth > 0) && ct.Opts["inline"] == "" {
-		e.applyContract(fr, st, ct, fn, fn.Signature, args, pos, k)
+		k2 := k
+		if (strings.HasSuffix(name, "Mutex).Lock") || strings.HasSuffix(name, "Mutex).RLock")) && len(args) > 0 && args[0].Sub != nil {
+			k2 = func(st2 *State, res *Val) {
+				e.acquireInterference(fr, st2, args[0])
+				k(st2, res)
+			}
+		}
+		e.applyContract(fr, st, ct, fn, fn.Signature, args, pos, k2)
 		return
 	}
 	if fn.Blocks != nil && (e.isRepoFunc(fn) || e.inlineWanted(name) || (fn.Synthetic != "" && strings.HasSuffix(name, "$bound"))) {
@@ -350,6 +357,14 @@ func (e *Engine) applyContract(fr *Frame, st *State, ct *Contract, fn *ssa.Funct
 			return
 		}
 		st.assume(v.T)
+	}
+	// fmt.Errorf with a constant format that has no %w returns a plain error: status.Code of it is Unknown
+	if ct.Key == "fmt.Errorf" && len(args) > 0 && len(rs) == 1 {
+		for lit, name := range e.reg.strLits {
+			if name == args[0].T && !strings.Contains(lit, "%w") {
+				st.assume("(= (code " + rs[0].T + ") #x00000002)")
+			}
+		}
 	}
 	// well-formedness of results (after `fresh` allocations made by the ensures clauses)
 	for _, v := range rs {
@@ -674,4 +689,45 @@ func (e *Engine) flatComparable(s string) bool {
 		return true
 	}
 	return false
+}
+
+// acquireInterference: acquiring the mutex that guards a field is an interference point -- while the lock was
+// not held, other threads may have changed the guarded data arbitrarily.  The guarded map's content is
+// havocked and (if the rule names snapshot ghosts) its state right after the acquisition is recorded.
+func (e *Engine) acquireInterference(fr *Frame, st *State, mu *Val) {
+	for _, g := range e.specs.Guards {
+		ss, ok := e.reg.byType[g.Struct]
+		if !ok || ss != mu.Sub.Struct {
+			continue
+		}
+		info := e.reg.structs[ss]
+		fi := -1
+		for i, f := range info.Fields {
+			if f == g.Field && info.Fields[mu.Sub.Field] == g.Mutex {
+				fi = i
+			}
+		}
+		if fi < 0 {
+			continue
+		}
+		mt, ok := info.FTypes[fi].Underlying().(*types.Map)
+		if !ok {
+			e.errorf("guarded field %s.%s is not a map: interference on acquisition is not modelled", g.Struct, g.Field)
+			continue
+		}
+		ks, vs := e.reg.sortOf(mt.Key()), e.reg.sortOf(mt.Elem())
+		kp, kv := e.keyMapP(ks, vs), e.keyMapV(ks, vs)
+		mref := sel(e.heapGet(st, st.heap, e.keyField(ss, fi)), mu.Sub.Base)
+		// only this map's row changes
+		hp, hv := e.heapGet(st, st.heap, kp), e.heapGet(st, st.heap, kv)
+		np := st.fresh("acq_has", arr(ks, sBool))
+		nv := st.fresh("acq_val", arr(ks, vs))
+		e.heapSet(st, kp, sto(hp, mref, np))
+		e.heapSet(st, kv, sto(hv, mref, nv))
+		if len(g.Snap) == 2 {
+			st.ghost[g.Snap[0]] = np
+			st.ghost[g.Snap[1]] = nv
+		}
+		st.trail = append(st.trail, "acquire:"+g.Mutex)
+	}
 }
